@@ -1,6 +1,7 @@
 package jq
 
 import (
+	"bytes"
 	"encoding/json"
 	"errors"
 	"maps"
@@ -47,6 +48,43 @@ func (f *Filter) ApplyFilter(jqFilter string, data map[string]any) (map[string]a
 	}
 
 	return result, nil
+}
+
+// ApplyFilterJSON runs jq expression provided in jqFilter with jsonData as input and
+// returns all outputs (objects, arrays, scalars, null) as compact JSON documents
+// separated by newlines. The result is empty if the filter produces no output.
+func (f *Filter) ApplyFilterJSON(jqFilter string, data map[string]any) ([]byte, error) {
+	query, err := gojq.Parse(jqFilter)
+	if err != nil {
+		return nil, err
+	}
+
+	workData := deepCopy(data)
+	iter := query.Run(workData)
+	var buf bytes.Buffer
+	for {
+		v, ok := iter.Next()
+		if !ok {
+			break
+		}
+		if err, ok := v.(error); ok {
+			var errGoJq *gojq.HaltError
+			if errors.As(err, &errGoJq) && errGoJq.Value() == nil {
+				break
+			}
+			return nil, err
+		}
+		doc, err := gojq.Marshal(v)
+		if err != nil {
+			return nil, err
+		}
+		if buf.Len() > 0 {
+			buf.WriteByte('\n')
+		}
+		buf.Write(doc)
+	}
+
+	return buf.Bytes(), nil
 }
 
 func (f *Filter) FilterInfo() string {
